@@ -200,9 +200,12 @@ SELS = [(':lang(en)', 'en'), (':lang("")', ''), (':lang("*")', '*'), (':lang(fr,
 CSEL = [sv.compile(s) for s, _ in SELS]
 # XHTML + <meta> pragma is outside the claim: on this tree (and upstream) the pragma is only consulted for non-XML
 # documents when a document object is present, and the property text does not settle XHTML.
-COMBOS = part([c for c in itertools.product(range(5), range(len(VALS)), range(len(VALS)), range(len(VALS)),
+import random as _random
+_ALLCOMBOS = [c for c in itertools.product(range(5), range(len(VALS)), range(len(VALS)), range(len(VALS)),
                                             range(len(VALS)), (None, 'fr', ''))
-               if not (c[0] in (1, 3, 4) and c[5] is not None)])
+               if not (c[0] in (1, 3, 4) and c[5] is not None)]
+_random.Random(13 + int(__import__('os').environ.get('VERIF_SEED', '0') or 0)).shuffle(_ALLCOMBOS)
+COMBOS = part(_ALLCOMBOS)
 NCOMBO = len(COMBOS)
 
 
